@@ -78,6 +78,10 @@ class FakeTransport(asyncio.DatagramTransport):
             return
         t = self.world.clock.t
         self.sent.append((t, bytes(data), addr))
+        if self.world.send_error:
+            # the interface is down: the OS refuses the send (ENETUNREACH); asyncio reports that to the protocol through
+            # error_received() and keeps the socket open
+            self.world.loop.call_soon(self.protocol.error_received, OSError(101, "Network is unreachable"))
         self.world.on_send(self, bytes(data), addr)
 
     def close(self):
@@ -282,6 +286,7 @@ class World:
         self._last_delivery = {}
         # fault state
         self.blackout = False
+        self.send_error = False   # with blackout: sends fail with an OS error instead of vanishing silently
         self.c2s_tape = []  # per-datagram actions consumed in order; [] = deliver
         self.s2c_tape = []
         self.c2s_cycle = None  # pattern that refills the tape when it runs out (persistent fault)
